@@ -1,6 +1,22 @@
-HOOK_COMMITS = []
+"""MANIFEST entries: one JSON file per claimed property in tools/manifest.d/Cxx.json with keys
+text (level_claimed.text), note (level_note), technique, optional design_ref.
+Properties without a file are listed under not_applicable with the reason below (or the reason in
+tools/manifest.d/not_applicable.json)."""
+import json
+from pathlib import Path
 
+D = Path(__file__).resolve().parent / "manifest.d"
+HOOK_COMMITS = json.loads((D / "hook_commits.json").read_text()) if (D / "hook_commits.json").exists() else []
 CHECKS = []
-
-_PENDING = "check not built yet in this round (planned, see DESIGN.md section 4)"
-NOT_APPLICABLE = [{"property_id": f"C{i:02d}", "reason": _PENDING} for i in range(1, 17)]
+for p in sorted(D.glob("C[0-9][0-9].json")):
+    e = json.loads(p.read_text())
+    e["property_id"] = p.stem
+    CHECKS.append(e)
+_na = json.loads((D / "not_applicable.json").read_text()) if (D / "not_applicable.json").exists() else {}
+_PENDING = "no check is registered for this property yet (planned in DESIGN.md section 4; not claimed until its check passes on the unchanged tree)"
+_claimed = {c["property_id"] for c in CHECKS}
+NOT_APPLICABLE = [
+    {"property_id": f"C{i:02d}", "reason": _na.get(f"C{i:02d}", _PENDING)}
+    for i in range(1, 17)
+    if f"C{i:02d}" not in _claimed
+]
